@@ -140,6 +140,34 @@ def run(run):
                     elif canon(got[1]) != canon(ref[1]):
                         run.violation("cut %s then %s%s: %s differs from the uncut run %s" % (cname, kn, sel, _short(canon(got[1])), _short(canon(ref[1]))),
                                       {"kind": "cut-select", "cut": cname, "sel": sel, "cont": kn, "npartitions": npart, "unknown_divisions": unknown})
+    # several collections cut TOGETHER (dask.persist / dask.optimize of siblings, from_graph on one shared graph): each
+    # re-imported collection must stay its own query
+    import dask
+    nshare = 0
+    sib = rt.dx.from_pandas(pdf, npartitions=3)
+    families = {
+        "a+1 / a+2": (sib.a + 1, sib.a + 2), "two filters": (sib[sib.a > 3], sib[sib.a > 7]), "sum / max": (sib.a.sum(), sib.a.max()),
+        "frame*2 / frame*3": (sib * 2, sib * 3), "two shuffles": (sib.shuffle("b", npartitions=3, shuffle_method="tasks"), sib.shuffle("a", npartitions=3, shuffle_method="tasks")),
+        "head / tail": (sib.head(3, compute=False), sib.tail(3, compute=False)), "two partitions": (sib.partitions[[0]], sib.partitions[[1]]),
+    }
+    for fam, (qa, qb) in families.items():
+        exp = try_(lambda: (canon(qa.compute(), False, True), canon(qb.compute(), False, True)))
+        if exp[0] == "raise":
+            continue
+        for how, f in (("dask.persist", lambda: dask.persist(qa, qb)), ("dask.optimize", lambda: dask.optimize(qa, qb)), ("separate persist", lambda: (qa.persist(), qb.persist()))):
+            nshare += 1
+            run.count(("cut-together", fam, how))
+            r = try_(f)
+            if r[0] == "raise":
+                run.violation("%s of the siblings %s raises %s" % (how, fam, r[1]), {"kind": "cut-together", "family": fam, "how": how})
+                continue
+            ca, cb = r[1]
+            got = try_(lambda: (canon(ca.compute(), False, True), canon(cb.compute(), False, True), canon((cb - ca).sum().compute() if fam in ("a+1 / a+2", "frame*2 / frame*3") else 0, False, True)))
+            if got[0] == "raise":
+                run.violation("computing the siblings %s after %s fails: %s" % (fam, how, got[1]), {"kind": "cut-together", "family": fam, "how": how})
+            elif got[1][:2] != exp[1]:
+                run.violation("after %s the siblings %s are no longer their own queries: %s / %s, expected %s / %s" % (how, fam, _short(got[1][0]), _short(got[1][1]), _short(exp[1][0]), _short(exp[1][1])),
+                              {"kind": "cut-together", "family": fam, "how": how})
     # cuts of queries over sources whose partitioning the optimizer changes (multi-file parquet reads fused after a column
     # projection): the re-imported collection has to describe the graph it carries
     import os
@@ -185,5 +213,5 @@ def run(run):
                             run.violation("%s: the re-imported collection reports %d partitions, its graph has %d" % (tagc, cutc[1].npartitions, nparts[1]), {"kind": "cut-parquet", "cut": cname, "head": hn})
     finally:
         shutil.rmtree(tmp, ignore_errors=True)
-    run.section("cuts", programs=n, cut_executions=ncut, node_kinds=kinds, cut_kinds=list(C), selection_continuations=nsel, parquet_cut_cases=npq)
+    run.section("cuts", programs=n, cut_executions=ncut, node_kinds=kinds, cut_kinds=list(C), selection_continuations=nsel, parquet_cut_cases=npq, cut_together_cases=nshare)
     run.sample({"cut": "persist after step 1", "program": "v1=filter(t0,...); v2=assign(v1,...); v3=sum(v2)"})
